@@ -119,6 +119,10 @@ pub fn check_key<V: Fv>(seed: [u8; 32], gso: bool, rep: &mut Report) {
 }
 
 pub fn keys(ctx: &Ctx, rep: &mut Report) {
+    if !crate::pool::keygen_responds::<F512>() {
+        rep.inconclusive("key generation did not return within 180 s (canary); reported as inconclusive, never as a violation".into());
+        return;
+    }
     let n512 = ctx.sz(224, 6000);
     let n1024 = ctx.sz(40, 900);
     let gso512 = ctx.sz(2, 8);
